@@ -10,15 +10,18 @@ explicit failure branch.  Proved: on every input the modelled function ends in a
     names only with an arity the table allows — `gringoOK`, the parser's contract); in particular the
     `assert` at the end of the operator chain, `Previous(None, …)` / `BooleanFormula("&", None, …)` of unary
     sequence operators and `args[-1]` on an empty list are unreachable
-  * the test part of path expressions (`create_path(…, check=True)`)
+  * `create_path` / `create_dynamic_formula` (every `&del` term gringo can produce with the `#theory del` table) and
+    `translate_elements` on top of them; the head `create_formula` (theory/head.py)
+  * `TheoryParser.parse` (transformers/head.py) on every non-empty unparsed term of the shape clingo's grammar
+    produces, with any operator table: the stack never underflows, `__check` never looks up a missing
+    operator, the fuel of the model's loops suffices (termination)
   * `__get_param` for every predicate name and flag combination
   * the solving loop and the option parsers (C08: `loop_no_internal`, `options_never_crash`)
 Termination: all these functions are total Lean definitions (structural or well-founded recursion accepted by
 the kernel) — no input makes them loop.
-PARTIAL: `create_path` / `create_dynamic_formula`, the head `create_formula` and `TheoryParser.parse` are modelled
-with their failure branches and compared with the implementation including error classes on near-valid inputs,
-but their no-internal-error theorems are not proved here; the AST rewriting of `transformers/` is covered by
-the near-valid search on the real code only.
+PARTIAL: the AST rewriting of `transformers/` (other than `__get_param` and `TheoryParser`) and the step-wise
+`translate` methods of `theory/` are covered by the error-class correspondence and the near-valid search on the
+real code only.
 -/
 import TelProofs.NoInternal
 import TelProofs.Props.C08
@@ -38,6 +41,28 @@ theorem no_internal_formula (t : TTerm) (hok : gringoOK bodyTable t = true) : No
 theorem no_internal_test (t : TTerm) (hok : gringoOK delTable t = true) : NoInternal (createPathCheck t) :=
   createPathCheck_noInternal t hok
 
+/-- `&del` formulas: every term the theory-term parser can hand over -/
+theorem no_internal_path (t : TTerm) (hok : gringoOK delTable t = true) : NoInternal (createPath t) :=
+  createPath_noInternal t hok
+
+theorem no_internal_dynamic (t : TTerm) (hok : gringoOK delTable t = true) : NoInternal (createDynamicFormula t) :=
+  createDynamicFormula_noInternal t hok
+
+/-- `translate_elements`: all elements of a `&tel` / `&del` body atom, with their conditions -/
+theorem no_internal_elements (els : List TElem) (dynamic : Bool)
+    (hok : ∀ e ∈ els, gringoOK (if dynamic then delTable else bodyTable) e.term = true) :
+    NoInternal (translateElements els dynamic) :=
+  translateElements_noInternal els dynamic hok
+
+/-- head formulas (`&__tel_head` atoms are declared with the body term table) -/
+theorem no_internal_head_formula (t : TTerm) (hok : gringoOK bodyTable t = true) : NoInternal (hCreateFormula t) :=
+  hCreateFormula_noInternal t hok
+
+/-- `TheoryParser.parse`, any table -/
+theorem no_internal_parser (tbl : List OpEntry) (elems : List UElem) (hne : elems ≠ []) (hok : elemsOK true elems) :
+    NoInternal (stackParse tbl elems) :=
+  stackParse_noInternal tbl elems hne hok
+
 theorem no_internal_get_param (name : String) (rf ff fp : Bool) : NoInternal (getParam name rf ff fp) :=
   getParamL_noInternal name.toList rf ff fp
 
@@ -52,5 +77,8 @@ theorem no_internal_options (o : Opts) (name value : String) : ∀ e, applyOptio
 example : gringoOK bodyTable (.fn ";>" [.sym "a", .fn ">?" [.fn "~" [.sym "b"]]]) = true := by decide
 example : createFormula (.fn ">" [.fn "-" [.num 1], .sym "a"]) = .error (.runtime "number expected") := by rfl
 example : gringoOK bodyTable (.fn ";>" [.sym "a"]) = false := by decide
+example : gringoOK delTable (.fn ".>?" [.fn ";;" [.fn "?" [.sym "a"], .fn "*" [.fn "&" [.sym "true"]]], .sym "b"]) = true := by decide
+example : elemsOK true [⟨[], 0⟩, ⟨["&", ">"], 1⟩, ⟨["|"], 2⟩] := by simp [elemsOK]
+example : stackParse headTablePy [⟨["<"], 0⟩] = .error (.runtime "invalid operator in temporal formula") := by rfl
 
 end TelProofs.C15
